@@ -219,6 +219,10 @@ func (r Row) MarshalJSON() ([]byte, error) {
 }
 
 func (r *Row) UnmarshalJSON(b []byte) error {
+	if string(b) == "null" {
+		*r = nil
+		return nil
+	}
 	var raw [][]json.RawMessage
 	if err := json.Unmarshal(b, &raw); err != nil {
 		return err
